@@ -36,17 +36,19 @@ def keyClass (k : Node) (looped : Bool) : Option String :=
   else none
 
 mutual
-/-- A struct used by value must not have pointer-to-scalar / `*[]byte` fields: DeepEqual emits
-`lx2 != nil` on the struct value (compiler.go:561-564 with 572-582). -/
-def fieldsClass (byValueNested : Bool) : List Node → Option String
+/-- `vr` (the original emitter, finding `uncompilable-ptr-scalar-field-in-struct-value`): a struct used by value
+must not have pointer-to-scalar / `*[]byte` fields — DeepEqual emitted `lx2 != nil` on the struct value
+(compiler.go:561-564 with 572-582). Repaired in /repo by `fix: DeepEqual tests the nil-ness of pointer-to-scalar
+fields on the field, not on its parent` (the nil test now names the field): with `vr = false` the rule is off. -/
+def fieldsClass (vr : Bool) (byValueNested : Bool) : List Node → Option String
   | [] => none
   | ch :: rest =>
-    match fieldClass byValueNested ch with
+    match fieldClass vr byValueNested ch with
     | some c => some c
-    | none => fieldsClass byValueNested rest
+    | none => fieldsClass vr byValueNested rest
 
 /-- A struct field. `byValueNested`: the enclosing struct is itself held by value below the root. -/
-def fieldClass (byValueNested : Bool) (ch : Node) : Option String :=
+def fieldClass (vr : Bool) (byValueNested : Bool) (ch : Node) : Option String :=
   match ch with
   | .basic i =>
     if byValueNested && i.ptr then some "ptr-scalar-field-in-struct-value"
@@ -54,28 +56,28 @@ def fieldClass (byValueNested : Bool) (ch : Node) : Option String :=
     else if isIntName i.typu then none                                   -- named integers convert with T(t)
     else if i.typu == "bool" && i.ptr then none                          -- only the nil comparison is emitted
     else some "named-scalar"                                             -- NBool: `>` on bool; NFloat: EqualFloat64(NFloat…); NStr: string ↔ NStr
-  | .struct i chld => fieldsClass (!i.ptr) chld
+  | .struct i chld => fieldsClass vr (vr && !i.ptr) chld
   | .slice i e =>
     if i.typn == "[]byte" then (if byValueNested && i.ptr then some "ptr-scalar-field-in-struct-value" else none)
-    else elemClass e
+    else elemClass vr e
   | .map _ k v =>
     match keyClass k true with
     | some c => some c
-    | none => valClass v
+    | none => valClass vr v
 
 /-- A slice element. -/
-def elemClass (e : Node) : Option String :=
+def elemClass (vr : Bool) (e : Node) : Option String :=
   match e with
   | .basic i => if isBuiltinName i.typn then none else some "named-scalar-element"   -- `decl.x0`, `&pkg.x0`
-  | .struct i chld => fieldsClass (!i.ptr) chld
+  | .struct i chld => fieldsClass vr (vr && !i.ptr) chld
   | .slice i _ => if i.typn == "[]byte" then some "bytes-element" else some "collection-element"   -- `lx.` + empty name; `len((x))` on a pointer
   | .map _ _ _ => some "collection-element"
 
 /-- A map value. -/
-def valClass (v : Node) : Option String :=
+def valClass (vr : Bool) (v : Node) : Option String :=
   match v with
   | .basic i => if isBuiltinName i.typn then none else some "named-scalar-element"
-  | .struct i chld => fieldsClass (!i.ptr) chld
+  | .struct i chld => fieldsClass vr (vr && !i.ptr) chld
   | .slice i e =>
     if i.typn == "[]byte" then some "bytes-element"
     else if i.ptr then some "ptr-collection-element"
@@ -100,11 +102,11 @@ def anyBytesL (wantPtr : Bool) : List Node → Bool
 end
 
 /-- The type discipline of the emitted code, shape by shape (each reason is one known-finding class of C14). -/
-def uncompilableShape (root : Node) : Option String :=
+def uncompilableShape (vr : Bool) (root : Node) : Option String :=
   match root with
-  | .struct _ chld => fieldsClass false chld
-  | .slice _ e => elemClass e
-  | .map _ k v => (match keyClass k true with | some c => some c | none => valClass v)
+  | .struct _ chld => fieldsClass vr false chld
+  | .slice _ e => elemClass vr e
+  | .map _ k v => (match keyClass k true with | some c => some c | none => valClass vr v)
   | .basic _ => some "not-eligible"
 
 /-- `none`: the inspector emitted for this root type compiles; `some c`: it does not, for reason `c`.
@@ -113,14 +115,14 @@ discipline one file-level rule — DeepEqual emits `bytes.Equal` for every `[]by
 the `bytes` import was only registered by the compare snippet of a *plain* `[]byte` (writeCmp returns early
 for pointer nodes): a type whose only byte slices are `*[]byte` did not compile. Repaired in /repo (`fix: the
 inspector of a type whose only byte slices are *[]byte did not compile`): the equality emitter registers the import. -/
-def uncompilableWith (ptrBytesRule : Bool) (root : Node) : Option String :=
-  match uncompilableShape root with
+def uncompilableWith (ptrBytesRule : Bool) (valueStructRule : Bool) (root : Node) : Option String :=
+  match uncompilableShape valueStructRule root with
   | some c => some c
   | none => if ptrBytesRule && anyBytes true root && !anyBytes false root then some "ptr-bytes-alone" else none
 
 /-- The emitter as it is. -/
-def uncompilable (root : Node) : Option String := uncompilableWith false root
+def uncompilable (root : Node) : Option String := uncompilableWith false false root
 /-- The emitter at the pinned commit. -/
-def uncompilableOriginal (root : Node) : Option String := uncompilableWith true root
+def uncompilableOriginal (root : Node) : Option String := uncompilableWith true true root
 
 end Inspector
